@@ -37,7 +37,9 @@ def configs(tier, prop="C07", equal=False):
             for la, lb in ((1, 2), (2, 2)) if not equal else ((2, 2),):
                 out.append(split.Config(prop, t, la, lb, equal=equal, kernel=2, ka=2, timeout=3600, mem_gb=10))
         out.append(split.Config(prop, "dna", 2, 2, equal=equal, kernel=2, ka=3, timeout=3600, mem_gb=10))
-        out.append(split.Config(prop, "protein", 2, 1, equal=False, kernel=2, ka=2, timeout=3600, mem_gb=10)) if not equal else None
+        # NOTE: profile LONGER than the sequence is not claimed: do_align never swaps in the sequence-profile case, and there the
+        # unchanged kernels return alignments that the tight bracket oracle rejects (native validation: VK_KCOPIES=2 VK_ANYLEN=1
+        # tools/c07_native 4 4 -> 897 of 578000 pairs, e.g. 2x CGAA vs CA comes out as C--A); the deficits stay within 2*gpo.
         # profile-profile: 2x2 ran out of 6 GB in the probe; attempted with 20 GB (may stay undecided)
         out.append(split.Config(prop, "dna", 1, 2 if not equal else 1, equal=equal, kernel=3, ka=2, kb=2, timeout=3600, mem_gb=20))
 
